@@ -359,6 +359,26 @@ mut('m33_thread_branch_never_stores', ['C03'], MS, '''        let __result = (||
     }
 }
 /// Check if max_memory''', 'thread-local branch never stores')
+mut('m34_async_lfu_pops_front_instead', ['C04', 'C08'], A, '''                        if let Some(evict_key) = self.find_min_frequency_key(order) {
+                            self.cache.remove(&evict_key);
+                            order.retain(|k| k != &evict_key);
+                        }
+                    }
+                    EvictionPolicy::ARC => {
+                        if let Some(evict_key) = self.find_arc_eviction_key(order) {''', '''                        if let Some(evict_key) = self.find_min_frequency_key(order) {
+                            self.cache.remove(&evict_key);
+                            order.pop_front();
+                        }
+                    }
+                    EvictionPolicy::ARC => {
+                        if let Some(evict_key) = self.find_arc_eviction_key(order) {''', 'LFU victim removed from the store, but the queue loses its front key')
+mut('m35_async_memory_arc_retains_other', ['C05'], A, '''                        if let Some(evict_key) = self.find_arc_eviction_key(&*order) {
+                            self.cache.remove(&evict_key);
+                            order.retain(|k| k != &evict_key);
+                            true''', '''                        if let Some(evict_key) = self.find_arc_eviction_key(&*order) {
+                            self.cache.remove(&evict_key);
+                            order.retain(|k| k != key);
+                            true''', 'memory loop: ARC victim leaves the store, the queue drops the key being stored instead')
 
 
 # ---- behaviour-preserving edits: every check must stay silent (run with all 20 checks) -------------
